@@ -4,7 +4,7 @@ Shapes = {21, 31, 22}
 EVals = {0, 1, 3}
 ThCfgs = {1, 2, 3, 5, 6}
 KCfgs = {1, 2}
-Funs = {2}
+Funs = {2, 5}
 INVARIANTS Consecutive AgreesWithDefinition CredOfDominator DominanceLemma IdenticalLemma ScaleLemma
 PROPERTIES Progress
 CHECK_DEADLOCK FALSE
